@@ -240,5 +240,11 @@ func IntegerFormatsDoc() specgen.Doc {
 		}
 		d.Ops = append(d.Ops, op)
 	}
+	// request bodies declared by a wildcard media type (the directed family "a bare token is no media type")
+	for i, mask := range []string{"application/*", "*/*"} {
+		d.Ops = append(d.Ops, specgen.Operation{ID: fmt.Sprintf("mask%d", i), Method: "POST", Path: fmt.Sprintf("/mask%d", i),
+			Body:      &specgen.Body{Required: true, Media: []specgen.Media{{ContentType: mask, Schema: &specgen.Schema{Type: "string", Format: "binary"}}}},
+			Responses: []specgen.Response{{Code: "200"}}})
+	}
 	return d
 }
